@@ -8,6 +8,10 @@
 (*        harness gave its client for it                                      *)
 (*   {"a":"Emit","id","at", k=resp|timeout, ex,kex,inst,side,price,qty,b,st,  *)
 (*    err,fill,oid}   an event left the response channel at `at`              *)
+(*   {"a":"Stall","at"}                 the harness moved the clock to `at`   *)
+(*                                      in one jump, the manager was not      *)
+(*                                      scheduled in between: the spec's      *)
+(*                                      Stall(at) (consumes the line)         *)
 (*   {"a":"Shutdown","at"}              the manager's run() returned          *)
 (*   {"a":"End","at"}                   the harness stopped listening, later  *)
 (*                                      than every deadline                   *)
@@ -32,7 +36,7 @@ TraceSIDE   == {"buy", "sell"}
 TraceBUNDLE == {"lim", "mkt", "lim_po", "ioc"}
 
 VARIABLES l, bad
-tvars == <<now, running, req, pending, out, l, bad>>
+tvars == <<now, running, req, pending, out, lagged, l, bad>>
 
 R == Rec[l]
 
@@ -45,20 +49,27 @@ TInit == Init /\ l = 1 /\ bad = <<>>
 
 TReset == /\ R.a = "Reset"
           /\ now' = 0 /\ running' = TRUE /\ req' = [r \in REQ |-> NoReq] /\ pending' = {} /\ out' = <<>>
+          /\ lagged' = {}
           /\ l' = l + 1
           /\ UNCHANGED bad
 
 \* ---- the silent step: time passes up to the stamp of the next line
-TAdvance == /\ R.a # "Reset" /\ R.at > now
+TAdvance == /\ R.a \notin {"Reset", "Stall"} /\ R.at > now
             /\ Advance(R.at)                                  \* the spec's own action
             /\ UNCHANGED <<l, bad>>
 
-TAdvanceBad == /\ R.a # "Reset" /\ R.at > now
+TAdvanceBad == /\ R.a \notin {"Reset", "Stall"} /\ R.at > now
                /\ ~CanAdvance(R.at)
                /\ now' = R.at
                /\ pending' = {r \in pending : Due(r) >= R.at}
                /\ bad' = Append(bad, l)
-               /\ UNCHANGED <<running, req, out, l>>
+               /\ UNCHANGED <<running, req, out, lagged, l>>
+
+\* ---- the stalled executor: the spec's own action, consuming the line
+TStall == /\ R.a = "Stall" /\ R.at > now
+          /\ Stall(R.at)
+          /\ l' = l + 1
+          /\ UNCHANGED bad
 
 \* ---- consuming a line
 \* the same predicate as the disjuncts of TStepOK
@@ -86,10 +97,10 @@ TStepBad == /\ R.a # "Reset" /\ R.at <= now
             /\ pending' = IF R.a = "Emit" THEN pending \ {R.id} ELSE pending
             /\ l' = l + 1
             /\ bad' = Append(bad, l)
-            /\ UNCHANGED <<now, running, req, out>>
+            /\ UNCHANGED <<now, running, req, out, lagged>>
 
 TNext == /\ l <= Len(Rec)
-         /\ (TReset \/ TAdvance \/ TAdvanceBad \/ TStepOK \/ TStepBad)
+         /\ (TReset \/ TAdvance \/ TAdvanceBad \/ TStall \/ TStepOK \/ TStepBad)
 
 TSpec == TInit /\ [][TNext]_tvars
 
@@ -98,7 +109,7 @@ TProps == [][R.a = "Reset" \/ bad' # bad \/ StableStep]_tvars
 
 \* number of silent steps: lines whose stamp is later than the previous line's (Reset: 0)
 PrevAt(i) == IF i = 1 THEN 0 ELSE Rec[i - 1].at
-NSilent == Cardinality({i \in 1..Len(Rec) : Rec[i].a # "Reset" /\ Rec[i].at > PrevAt(i)})
+NSilent == Cardinality({i \in 1..Len(Rec) : Rec[i].a \notin {"Reset", "Stall"} /\ Rec[i].at > PrevAt(i)})
 
 Done == l = Len(Rec) + 1 => PrintT(<<"TRACE_END", ToJson(bad)>>)
 Post == PrintT(<<"TRACE_DONE", TLCGet("stats").diameter - NSilent, Len(Rec)>>)
